@@ -35,7 +35,7 @@ REQUIRED_REACH = ["negative-det-cells", "non-affine-cells", "default-order", "fa
                   "refined-copy", "renumbered-copy", "degree-beyond-strength-skipped",
                   "equal-size-subdomains-on-one-mesh", "overlapping-tags-union", "overlapping-facet-tags-union",
                   "input:small-units", "input:float32-vertices", "input:non-contiguous-arrays",
-                  "interior-facet-basis-with-order"]
+                  "interior-facet-basis-with-order", "every-cell-order", "every-facet-order"]
 ASSUMPTIONS = ["vertex coordinates are taken as the exact rational values of the doubles stored in the mesh",
                "nodal bases of the exact reference use the nearest small rationals (denominator <= 64) to the "
                "element's tabulated reference nodes"]
@@ -232,6 +232,19 @@ def cell_functionals(ctx, k, kind):
                       desc=mc.desc, pulled_back_degree=info)
             if total != 0 and nt >= 2:
                 ctx.nontrivial(kind, geom, n, "monomial", which, sum(e))
+    # every order the tables offer, on this mesh: the measure and one monomial of the full degree the rule promises
+    # (a wrong normalisation or node of ONE tabulated rule is otherwise seen only when the random order hits it)
+    small = range(nt) if nt <= 12 else np.sort(rng.choice(nt, size=12, replace=False)).astype(np.int32)
+    for n2 in range(0, MAXORDER[kind] + 1):
+        b2 = skfem.CellBasis(mesh, elem(), intorder=n2) if nt <= 12 else skfem.CellBasis(mesh, elem(), elements=small, intorder=n2)
+        for e2 in ((0,) * d, rand_exps(rng, d, n2, 1)[0]):
+            r = exact_cells(mesh, kind, monomial_poly(e2), small, n2)
+            if r is None or not r[2]:
+                continue
+            got = skfem.Functional(poly_fn(e2)).assemble(b2)
+            ctx.close("cell-functional-exact", got, float(r[0]), rtol=1e-12, scale=r[1], mech=f"cell-integral-order-sweep:{kind}",
+                      kind=kind, geom=geom, order=n2, monomial=e2, desc=mc.desc)
+    ctx.reached("every-cell-order")
     ctx.sample({"kind": kind, "geom": geom, "desc": mc.desc, "order": n, "default": default, "cells": nt}, per_family=1)
 
 
@@ -284,6 +297,29 @@ def facet_functionals(ctx, k, kind):
     elem = getattr(skfem, P1ELEM[kind])
     nf = mesh.facets.shape[1]
     fmax = {"line": 4, "tri": 12, "quad": 12, "tet": 19, "hex": 10}[kind]
+    # every order on a few boundary facets: measure and one monomial of full degree
+    bfs = np.asarray(mesh.boundary_facets())
+    bsel = np.sort(bfs[rng.permutation(bfs.size)[:8]]).astype(np.int32)
+    if bsel.size:
+        for n2 in range(0, fmax + 1):
+            fb2 = skfem.FacetBasis(mesh, elem(), facets=bsel, intorder=n2)
+            for e2 in ((0,) * d, rand_exps(rng, d, n2, 1)[0]):
+                poly2 = monomial_poly(e2)
+                tot, scale, ok = 0.0, 0.0, True
+                for f in bsel:
+                    r = facet_exact(mesh, kind, poly2, int(f), n2)
+                    if r is None:
+                        ok = False
+                        break
+                    tot += r[0]
+                    scale += r[1]
+                    ok = ok and r[2]
+                if not ok:
+                    continue
+                got = skfem.Functional(poly_fn(e2)).assemble(fb2)
+                ctx.close("facet-functional-exact", got, tot, rtol=1e-12, scale=scale, mech=f"facet-integral-order-sweep:{kind}",
+                          kind=kind, geom=geom, order=n2, monomial=e2, desc=mc.desc)
+        ctx.reached("every-facet-order")
     n = int(rng.integers(0, fmax + 1))
     variants = [("boundary", None)]
     F = np.sort(rng.choice(nf, size=max(1, nf // 3), replace=False)).astype(np.int32)
